@@ -173,10 +173,10 @@ def run_driver(drv, script, trace, seed=1, leak_every=0, timeout=20, wall=3600, 
     skip = 0
     aborts = 0
     e = dict(os.environ)
-    e.setdefault("ASAN_OPTIONS", "detect_leaks=1:abort_on_error=0:exitcode=23:allocator_may_return_null=1:detect_stack_use_after_return=0")
+    e.setdefault("ASAN_OPTIONS", "detect_leaks=1:leak_check_at_exit=0:abort_on_error=0:exitcode=23:allocator_may_return_null=1:detect_stack_use_after_return=0")
     e.setdefault("UBSAN_OPTIONS", "print_stacktrace=1:halt_on_error=1")
-    e.setdefault("LSAN_OPTIONS", "exitcode=0:print_suppressions=0")
-    e.setdefault("TSAN_OPTIONS", "exitcode=0:report_signal_unsafe=0")
+    e.setdefault("LSAN_OPTIONS", "print_suppressions=0")
+    e.setdefault("TSAN_OPTIONS", "report_signal_unsafe=0")
     if env:
         e.update(env)
     errlog = trace + ".stderr"
